@@ -291,6 +291,26 @@ def policyOf (stores : List (String × String × String)) : ClearAt :=
   else if clears.all fun (f, _, w) => f == "Open" && w == "after-loop-start" then .afterLoopStart
   else .early
 
+/-! ## on-open / on-close step sequences (platform/onx.go) -/
+
+/-- an on-X function: run the steps in order; each step transforms the connection state and may
+    fail; after every step the loop tests the error and returns it at once. `none` = all succeeded. -/
+def onxSeq {σ ε : Type} : List (σ → σ × Option ε) → σ → σ × Option ε
+  | [], s => (s, none)
+  | f :: fs, s =>
+    match f s with
+    | (s', some e) => (s', some e)
+    | (s', none) => onxSeq fs s'
+
+/-- the same loop when the error of the steps marked `true` is bound to a new variable in its case
+    arm (`r, err := …`): the test after the switch reads the loop's own, still nil, `err` -/
+def onxSeqShadow {σ ε : Type} : List (Bool × (σ → σ × Option ε)) → σ → σ × Option ε
+  | [], s => (s, none)
+  | (shadowed, f) :: fs, s =>
+    match f s with
+    | (s', some e) => if shadowed then onxSeqShadow fs s' else (s', some e)
+    | (s', none) => onxSeqShadow fs s'
+
 /-! ## the standard operations as programs -/
 
 /-- `Channel.SendInputB` -/
